@@ -63,6 +63,16 @@ def stream_for(rng, d, length=None, regime=None):
     if heavy:
         L = min(L, 14)
     reg, xs = gen_stream(rng, L, regime, positive=needs_positive(d), grid=(1 if heavy else rng.choice([4, 4, 10, 2])))
+    if not heavy and regime is None and rng.chance(0.12):
+        # unusual magnitudes: large units, and integers beyond the exact range of f32 / i32 (conversions through a narrower type)
+        kind = rng.choice(["x1e6", "x1e12", "+2^24", "+2^31"])
+        if kind.startswith("x"):
+            m = F(10) ** int(kind[3:])
+            xs = [x * m for x in xs]
+        else:
+            off = F(2) ** int(kind[3:]) + 1
+            xs = [x + off for x in xs]
+        reg = reg + "/" + kind
     return reg, xs
 
 # views whose exact runs stay cheap for long streams and large windows (no coefficient growth)
